@@ -76,6 +76,11 @@ def templates(rnd, u):
     add('pack-writer', '\\begin{align} a &= b \\text{%s} \\end{align} \\eqref{k} %s' % (w(55), w(56)), pack='amsmath')
     add('pack-reader', '\\begin{align} a &= b \\text{%s} \\end{align} \\eqref{k} \\textcolor{red}{%s}' % (w(57), w(58)),
         pack='')
+    # packages that change the tables of the maths parser (\text as text macro, Unicode operators)
+    add('pack-writer3', '\\usepackage{unicode-math} %s \\begin{eqnarray} a & \u2264 & b \\end{eqnarray}' % w(96), pack='')
+    add('pack-reader3', '%s $x = y \\text{ %s } y$ \\begin{eqnarray} a & \u2264 & b \\\\ c & \u2192 & d \\end{eqnarray}' % (w(97), w(98)),
+        pack='')
+    add('pack-reader4', '%s \\(u \\text{%s}\\) \\[ a \\text{%s} b \\]' % (w(99), w(100), w(101)), pack='xcolor')
     add('pack-reader2', '\\begin{proof} %s \\end{proof} \\cite[a]{k} \\gls{x}' % w(59), pack='xcolor')
     add('dcls-writer', '\\documentclass[ngerman]{scrartcl}\\usepackage{babel} \\KOMAoptions{a} %s "a' % w(60), ml=True,
         dcls='scrartcl', lang='en-GB')
@@ -118,7 +123,7 @@ class C17(core.Check):
             'writer before its reader at least once and immediate repetitions. server: 6-10 requests to one --as-server '
             'process (sequential and 8 concurrent clients) vs a fresh server per request. Judged: equality of '
             '(text, map | parts, stderr). non-trivial = sequence of >= 2 calls; distinct = distinct (pool, sequence)'
-            % 48)
+            % 51)
     level_text = ('Exploration over call histories: independence from history is a statement about all call sequences; '
                   'each case compares every call of a random sequence with the same call in a fresh process, and the '
                   'pool is built from pairs designed to carry state from a writer to a reader. The state-diff monitor '
